@@ -7,5 +7,6 @@ CONSTANTS
  DevSplitAll = FALSE
  DevTmplMerge = FALSE
  DevSkipUserUnknown = FALSE
+ DevIdReuse = FALSE
 INVARIANT ListingOrderIrrelevant
 CHECK_DEADLOCK FALSE
